@@ -1416,6 +1416,26 @@ func genLatency(repo string) string {
 	return sb.String()
 }
 
+// genConsts: the integer constants of the sequential machines' packages (decode cost, cache geometry).
+func genConsts(repo string) string {
+	var sb strings.Builder
+	fmt.Fprintf(&sb, header, "proc/mvp1, proc/mvp2, proc/mvp3 (package-level integer constants)")
+	sb.WriteString("\nnamespace Gen.Consts\n\n")
+	for _, v := range []string{"mvp1", "mvp2", "mvp3"} {
+		p := loadPkg(repo, "proc/"+v, "github.com/teivah/majorana/proc/"+v)
+		scope := p.pkg.Scope()
+		fmt.Fprintf(&sb, "namespace %s\n", v)
+		for _, n := range scope.Names() {
+			if c, ok := scope.Lookup(n).(*types.Const); ok && c.Val().Kind() == constant.Int {
+				fmt.Fprintf(&sb, "def %s : Int := %s\n", n, c.Val().ExactString())
+			}
+		}
+		fmt.Fprintf(&sb, "end %s\n\n", v)
+	}
+	sb.WriteString("end Gen.Consts\n")
+	return sb.String()
+}
+
 var opMethods = []string{"Run", "InstructionType", "ReadRegisters", "WriteRegisters", "MemoryRead", "MemoryWrite"}
 
 func genRisc(repo string, bytesFail map[string]bool) (riscOut, opsOut string, facts map[string]any) {
@@ -1748,12 +1768,13 @@ func main() {
 	if err := os.MkdirAll(*out, 0o755); err != nil {
 		die("%v", err)
 	}
-	for _, f := range []string{"Bytes.lean", "Latency.lean", "Risc.lean", "Opcodes.lean"} {
+	for _, f := range []string{"Bytes.lean", "Latency.lean", "Risc.lean", "Opcodes.lean", "Consts.lean"} {
 		os.Remove(filepath.Join(*out, f))
 	}
 	bytesSrc, bytesFail := genBytes(*repo)
 	write(filepath.Join(*out, "Bytes.lean"), bytesSrc)
 	write(filepath.Join(*out, "Latency.lean"), genLatency(*repo))
+	write(filepath.Join(*out, "Consts.lean"), genConsts(*repo))
 	rs, ops, facts := genRisc(*repo, bytesFail)
 	write(filepath.Join(*out, "Risc.lean"), rs)
 	write(filepath.Join(*out, "Opcodes.lean"), ops)
